@@ -116,6 +116,20 @@ impl FixedWindowRoller {
     }
 }
 
+// A rotation that is still running in the background works on the same archive names as any
+// roller built for the same pattern afterwards (an appender re-created by a configuration
+// reload, for instance), so the roller does not go away before its rotation has finished.
+#[cfg(feature = "background_rotation")]
+impl Drop for FixedWindowRoller {
+    fn drop(&mut self) {
+        let (lock, cvar) = &*self.cond_pair;
+        let mut ready = lock.lock();
+        while !*ready {
+            cvar.wait(&mut ready);
+        }
+    }
+}
+
 impl Roll for FixedWindowRoller {
     #[cfg(not(feature = "background_rotation"))]
     fn roll(&self, file: &Path) -> anyhow::Result<()> {
